@@ -58,6 +58,8 @@ type Session struct {
 	Chunked bool `json:"chunked,omitempty"`
 	// BigChunk: two chunks per 8 s segment
 	BigChunk bool `json:"big_chunk,omitempty"`
+	// OKCode: the status the receiver answers accepted uploads with (0 = 200; 201 Created and 204 No Content are as good)
+	OKCode int `json:"ok_code,omitempty"`
 	// LongUpload (with BigChunk): four chunks of 2 s per 8 s segment instead: one upload stays open for 6 s
 	LongUpload bool `json:"long_upload,omitempty"`
 }
@@ -168,6 +170,7 @@ func genCase(t *rapid.T) (Case, *env.Env) {
 				s.Fault, s.Streams, s.Duration = "statuscode", false, 0
 			}
 		}
+		s.OKCode = rapid.SampledFrom([]int{0, 0, 0, 201, 204}).Draw(t, "ok-code")
 		c.Sessions = append(c.Sessions, s)
 	}
 	n := rapid.IntRange(3, 14).Draw(t, "nops")
@@ -203,6 +206,7 @@ type recv struct {
 	nMed  int
 	slow  bool
 	delay time.Duration
+	okCode int
 }
 
 func (r *recv) ServeHTTP(w http.ResponseWriter, req *http.Request) {
@@ -218,6 +222,9 @@ func (r *recv) ServeHTTP(w http.ResponseWriter, req *http.Request) {
 	r.mu.Lock()
 	r.puts = append(r.puts, put{path: req.URL.Path, ctype: req.Header.Get("Content-Type"), ingest: req.Header.Get("DASH-IF-Ingest"), auth: req.Header.Get("Authorization"), body: body, aborted: rerr != nil, startSeq: startSeq, endSeq: r.seq.Add(1)})
 	code := http.StatusOK
+	if r.okCode != 0 {
+		code = r.okCode
+	}
 	if isInit {
 		r.nInit++
 		if r.fault == "init-error" && r.nInit == 1 {
@@ -319,7 +326,7 @@ func checkCase(c Case, e *env.Env) (*hx.Violation, info) {
 	}()
 	segMS := int64(e.Asset.LoopMS) / int64(len(e.Asset.Ref.Segs))
 	for _, s := range c.Sessions {
-		x := &sess{s: s, rc: &recv{slow: s.Slow || s.EarlyDelete, delay: 15 * time.Millisecond, fault: s.Fault}, total: -1}
+		x := &sess{s: s, rc: &recv{slow: s.Slow || s.EarlyDelete, delay: 15 * time.Millisecond, fault: s.Fault, okCode: s.OKCode}, total: -1}
 		if s.EarlyDelete {
 			x.rc.delay = 40 * time.Millisecond
 		}
